@@ -8,9 +8,9 @@ import time
 import common
 from common import Result, log
 
-STALL_S = 12          # CPU seconds a single CALL may take at most (budget of the property: "a small time"); the harness writes a heartbeat after calls
+STALL_S = 60          # CPU seconds a single CALL may take at most (budget of the property: "a small time"); the harness writes a heartbeat after calls
 MEM_BYTES = 6 * 1024 ** 3
-WALL_BACKSTOP_S = 180  # ... and this much wall-clock time without progress whatever the CPU use (blocked process)
+WALL_BACKSTOP_S = 600  # ... and this much wall-clock time without progress whatever the CPU use (blocked process)
 MAX_HANGS = 6         # stop a family after this many hanging / dying maps
 
 
